@@ -45,3 +45,32 @@ CHECKS["C13"] = {
             "elementary interval; limits drawn in every relation to the data.",
     "note": _NOTE,
 }
+
+CHECKS["C14"] = {
+    "category": "fault_enumeration",
+    "design_ref": "DESIGN.md section 5 C14",
+    "technique": "runtime outcome monitor at every public entry point: seeded "
+                 "valid inputs must return; each single named fault of the "
+                 "documented catalogue must raise ValueError / "
+                 "InvalidChordException",
+    "text": "Fault enumeration: 26 named single-fault classes from the statement's "
+            "catalogue are applied to valid inputs at every entry point whose "
+            "validator documents the check, and the exception type (or its "
+            "absence) is observed; the valid half observes that every metric "
+            "function and evaluate() returns on all generated valid shapes. The "
+            "evidence lists the full (fault x entry point x outcome) matrix.",
+    "note": _NOTE,
+}
+CHECKS["C15"] = {
+    "design_ref": "DESIGN.md section 5 C15",
+    "technique": "runtime argument-digest purity monitor on all public functions, "
+                 "write-protected-buffer pass, np.empty poisoning, module-state "
+                 "canary, offline checker over a recorded multi-schedule history",
+    "text": "Every argument of every observed call of the public functions of 16 "
+            "modules had the same digest after the call as before (return or "
+            "raise); a write-protected pass pins any in-place write to its line; "
+            "one operation pool executed in several schedules in one interpreter "
+            "gave bit-identical result digests at every position, with no "
+            "uninitialised (poisoned) element in any result.",
+    "note": _NOTE,
+}
